@@ -219,7 +219,9 @@ def main():
         "by_solver": by_solver,
         "checker_cmd": f"python3-vt -m pyvc.main --prop {a.prop} --tier {a.tier}",
         "trusted_base": plan.TRUSTED_BASE,
-        "assumptions": plan.ASSUMPTIONS + ["assumed dependency contract: " + x for x in sorted(assumed)],
+        "assumptions": plan.ASSUMPTIONS + ["assumed dependency contract: " + x for x in sorted(assumed)]
+        + [f"contract of {fn_} used by this proof is discharged by the check of {home} (its home property), not re-verified here" for fn_, home in plan.DEPENDS_ON.get(a.prop, [])],
+        "depends_on": [{"function": fn_, "verified_under": home} for fn_, home in plan.DEPENDS_ON.get(a.prop, [])],
         "extraction_drops": plan.EXTRACTION_DROPS,
     }
     json.dump(res, open(a.out, "w") if a.out else sys.stdout, default=str)
